@@ -72,6 +72,16 @@ func deepTo(b *strings.Builder, obj slip.Object, depth int) {
 			deepTo(b, slip.List(all[len(active):]), depth+1)
 		}
 		b.WriteByte('>')
+	case *slip.BitVector:
+		fmt.Fprintf(b, "#<bit-vector adj=%v fill=%d ", to.Adjustable(), to.FillPtr)
+		for i := uint(0); i < to.Len; i++ {
+			if to.At(i) {
+				b.WriteByte('1')
+			} else {
+				b.WriteByte('0')
+			}
+		}
+		b.WriteByte('>')
 	case *slip.Array:
 		fmt.Fprintf(b, "#<array dims=%v et=%s adj=%v ", to.Dimensions(), elemType(to.ElementType()), to.Adjustable())
 		deepTo(b, to.AsList(), depth+1)
